@@ -68,6 +68,18 @@ pub trait Wait {
     /// Returns whether writers need to call notify
     /// Optimized the various BusyWait variants
     fn needs_notify(&self) -> bool;
+
+    /// Named addresses of the locks this strategy uses (verification harness only)
+    #[cfg(multiqueue2_verif)]
+    fn verif_layout(&self) -> Vec<(&'static str, usize)> {
+        Vec::new()
+    }
+
+    /// Number of parked tasks, if the strategy parks tasks (verification harness only)
+    #[cfg(multiqueue2_verif)]
+    fn verif_parked(&self) -> Option<usize> {
+        None
+    }
 }
 
 /// Thus spins in a loop on the queue waiting for a value to be ready
@@ -223,6 +235,11 @@ impl Wait for BlockingWait {
 
     fn needs_notify(&self) -> bool {
         true
+    }
+
+    #[cfg(multiqueue2_verif)]
+    fn verif_layout(&self) -> Vec<(&'static str, usize)> {
+        vec![("bw_lock", self.lock.addr()), ("bw_cv", self.condvar.addr())]
     }
 }
 
